@@ -134,6 +134,16 @@ def unit_save(shape):
                 for q, v, bad in CH.run(ex, p.fork(), entries, VStr('OK'), models=ctx.models):
                     ctx.oblige('post.acknowledgement_clears_the_pending_set', q, B(not bad and n_pending(q) == 0),
                                clause='after Tor acknowledges, nothing is pending')
+                    # a saved list option keeps the very tracked list the caller mutated (a copy would cut the caller's list
+                    # off: later in-place changes of it would no longer become pending)
+                    conf = q.heap[('dict', q.heap[('f', cfg.oid, 'config')].did)]
+                    for (k0, v0) in pairs:
+                        if not isinstance(v0, VList):
+                            continue
+                        cur = [v_ for k_, v_ in conf if isinstance(k_, VStr) and k_.t.eq(k0.t)]
+                        ctx.oblige('post.saved_list_is_the_tracked_list_the_caller_holds', q,
+                                   B(len(cur) == 1 and isinstance(cur[0], VList) and cur[0].lid == v0.lid and ('g', 'tracked', v0.lid) in q.heap),
+                                   clause='mutating list-valued options in place: the list the caller mutated stays the live, tracked one')
                 fail = VOpaque('failure', 51)
                 for q, v, bad in CH.run(ex, p.fork(), entries, fail, failed=True, models=ctx.models, is_failure=lambda x: x is fail):
                     ctx.oblige('post.rejection_keeps_the_changes_pending', q, B(n_pending(q) == len(pairs)),
